@@ -21,7 +21,7 @@ def gen(rng, i, tier):
         off = d.get("X", {}).get("Offset", 0.0)
         lo = min(d["x"]) + off
         if lo <= 0.02:
-            d["X"]["Offset"] = 0.2
+            d.setdefault("X", {})["Offset"] = 0.2
     return c
 
 
@@ -84,6 +84,23 @@ def evaluate(case):
     s.merge_data()
     if not (np.array_equal(s.q_master[s.sq_title], q0) and np.array_equal(s.sq_master[s.sq_title], v0)):
         fails.append("merging again without new data changes the result")
+    # a merge between the adds (look at the intermediate result, then add more data) may not change the final merge:
+    # every value is still the mean of ALL contributed points with that Q
+    if nd >= 2:
+        for cut in range(1, nd):
+            with np.errstate(all="ignore"):
+                s3 = StoG(**{"<b_coh>^2": case["bcoh"], "<b_tot^2>": case["btot"]})
+                s3.qmin, s3.qmax = case["qmin"], case["qmax"]
+                for k in range(nd):
+                    if k == cut and s3.sq_individuals.shape[1] > 0:
+                        s3.merge_data()
+                    s3.add_dataset(sc.to_info(case["datasets"][k]))
+                s3.merge_data()
+            q3, v3 = s3.q_master[s3.sq_title], s3.sq_master[s3.sq_title]
+            if len(q3) != len(q0) or not np.array_equal(q3, q0) or not np.allclose(v3, v0, rtol=1e-12, atol=1e-14):
+                fails.append(f"merging after the first {cut} dataset(s) and again after adding the rest differs from one merge of all datasets "
+                             "(a merged value is no longer the mean of all contributed points)")
+                break
     return fails
 
 
